@@ -180,7 +180,7 @@ def stepOp (st : St) (toks : List String) : St :=
     match tokB sl, parseList (parseKV tokB) ps, tokB dat with
     | some sl, some hs, some dat =>
       let st := { st with builts := st.builts.push (sl, hs) }
-      if build sl hs == dat then st else corrFail st s!"build impl={fmtB dat} model={fmtB (build sl hs)}"
+      if build Gen.C01Ssdp.headerSep sl hs == dat then st else corrFail st s!"build impl={fmtB dat} model={fmtB (build Gen.C01Ssdp.headerSep sl hs)}"
     | _, _, _ => corrFail st "bad bld line"
   | ["srch", _i, tgt, mx, stt, dat] =>
     match parseAddr tgt, tokB mx, tokB stt, tokB dat with
@@ -188,7 +188,7 @@ def stepOp (st : St) (toks : List String) : St :=
       let hs := [(ofString "HOST", hostPortString tgt), (ofString "MAN", ofString "\"ssdp:discover\""),
                  (ofString "MX", mx), (ofString "ST", stt)]
       let st := { st with builts := st.builts.push (ofString "M-SEARCH * HTTP/1.1", hs) }
-      if buildSearch tgt mx stt == dat then st else corrFail st s!"search impl={fmtB dat} model={fmtB (buildSearch tgt mx stt)}"
+      if buildSearch Gen.C01Ssdp.headerSep tgt mx stt == dat then st else corrFail st s!"search impl={fmtB dat} model={fmtB (buildSearch Gen.C01Ssdp.headerSep tgt mx stt)}"
     | _, _, _, _ => corrFail st "bad srch line"
   | "dec" :: r :: dat :: src :: loc :: now :: rest => stepDecode st "dec" r dat src loc now rest
   | "recv" :: r :: dat :: src :: loc :: now :: rest => stepDecode st "recv" r dat src loc now rest
